@@ -187,7 +187,10 @@ def one_step(rec, lab, ncalls, case):
     lab.finders["list_legacy"] = legacy_finder(lab)
     from spil import FindInList
     # raw file lines (unstripped) with do_strip=True: Sid and string forms must still agree
-    lab.finders["list_strip"] = FindInList([e + rng.choice(["\n", " ", "\r\n", ""]) for e in lab.list], do_strip=True)
+    import random as _r
+    case["strip_seed"] = rng.randrange(10 ** 6)
+    _rs = _r.Random(case["strip_seed"])
+    lab.finders["list_strip"] = FindInList([e + _rs.choice(["\n", " ", "\r\n", ""]) for e in lab.list], do_strip=True)
     for k in range(ncalls):
         s, info = lab.search(allow_last=(rng.random() < 0.15))
         if filter_is_unspecified(s):
@@ -238,6 +241,10 @@ def worker(args):
                     pass
         lab.refresh_exists(c.get("created", []))
         lab.finders["list"] = FindInList(list(lab.list))
+        import random as _r
+        lab.finders["list_legacy"] = legacy_finder(lab)
+        _rs = _r.Random(c.get("strip_seed", 0))
+        lab.finders["list_strip"] = FindInList([e + _rs.choice(["\n", " ", "\r\n", ""]) for e in lab.list], do_strip=True)
         if c.get("kind_of_call") == "finder":
             finder_clauses(rec, lab, c["finder"], lab.finders[c["finder"]], c["search"], dict(c))
         elif c.get("kind_of_call") == "sid":
